@@ -4,7 +4,7 @@
 (*   - a required field / struct / array left as None                                               *)
 (*   - a string longer (or, if not padded, shorter) than its fixed length; an array with one         *)
 (*     element more or less than its fixed length; more elements than the length field can carry     *)
-(*   - an integer (also an enum value, also an array element) at its type's limit and one above      *)
+(*   - an integer (also an enum value, also an array element) at its type's limit, one above, and 253^4+5  *)
 (*   - switch case data of the wrong kind for the switch value (the switch field moved to another    *)
 (*     case while the data stays; None where the selected case has a body)                           *)
 (* Each entry is [obj, what, stray]; stray marks data left behind for a value that selects no case   *)
@@ -26,7 +26,9 @@ Lift(ms, prefix, Wrap(_)) == [k \in 1..Len(ms) |-> [obj |-> Wrap(ms[k].obj), wha
 RECURSIVE Mutations(_, _, _)
 NumMuts(o, name, wire) ==
   <<Mut(Put(o, name, Limit(wire)), name \o " at the limit of " \o wire),
-    Mut(Put(o, name, LAdd(Limit(wire), <<0, 1>>)), name \o " above the limit of " \o wire)>>
+    Mut(Put(o, name, LAdd(Limit(wire), <<0, 1>>)), name \o " above the limit of " \o wire),
+    \* far above: 253^4 + 5, whose encoding begins like that of a small number (the excess sits in bytes the narrower field would cut off)
+    Mut(Put(o, name, LAdd(INT_MAX_L, <<0, 5>>)), name \o " far above the limit of " \o wire)>>
 FieldMuts(i, cls, o) ==
   LET v == o[i.name]
       W(x) == Put(o, i.name, x)
